@@ -883,7 +883,7 @@ func main() {
 	r.Assume("the fresh engine runs the same planner, so a wrong-but-fresh result (C01/C02) is not reported here; only divergence between the used engine and a fresh one on identical data is")
 
 	c0 := verifhook.Counters()
-	n := r.N(400, 8000)
+	n := r.N(400, 5000)
 	r.Parallel("hist", n, func(i int) { runHist(r, i) })
 	nw := r.N(60, 900)
 	r.Parallel("wire", nw, func(i int) { runWire(r, i) })
